@@ -400,7 +400,9 @@ REGIONS = {"rcb-input": region_rcb_input, "mismatched-end": region_mismatched_en
 # ----------------------------------------------------------------------------- strategies
 _hostile = st.lists(st.one_of(st.sampled_from(["\\", "n", "N", ";", ",", ":", '"', "%", "2", "3", "5", "A", "B", "C", " ", "\n", "a", "é", "%2C", "\\n", "\\;"]),
                               st.characters(blacklist_categories=("Cs", "Cc"))), max_size=10).map("".join)
-_mild = st.lists(st.sampled_from([";", ",", ":", '"', "% ", " ", "a", "b", "é", "\n", "2C", "x=y", "'", "3A"]), max_size=8).map("".join)
+_mild = st.lists(st.sampled_from([";", ",", ":", '"', "% ", " ", "a", "b", "é", "\n", "2C", "x=y", "'", "3A",
+                                  # URL-encoded text: lower-case forms of the RC-B escapes and other codes are plain characters
+                                  "%2c", "%3a", "%3b", "%5c", "%22", "%20", "q=%22exact%20phrase%22", "%2f"]), max_size=8).map("".join)
 
 
 def _retext(tree, draw, hostile=None):
